@@ -83,7 +83,11 @@ def _recording(cls):
             # an exactly-zero column: the least-squares update of that component is the zero vector, the component vanishes and
             # the next Gram matrix is singular -- ALS is not defined from this guess (0/0 in the column scaling)
             if isinstance(out, np.ndarray) and out.ndim == 2 and bool(np.any(np.all(out == 0, axis=0))):
-                self.breakdown = True
+                # ... provided the factors that went in were all non-degenerate: a zero column produced from a factor that already had a
+                # zero column is the algorithm's own doing and stays in scope
+                fms = self.log[-1][1]
+                if not any(bool(np.any(np.all(np.asarray(f) == 0, axis=0))) for k_, f in enumerate(fms) if k_ != int(n)):
+                    self.breakdown = True
             return out
     Rec.__name__ = cls.__name__
     return Rec
